@@ -76,6 +76,36 @@ def _handler_flag(p, hh, first_name):
     return names, bools[0]
 
 
+def _service_struct_flag(p, f, flag_ok):
+    """The per-connection service is a private struct (one bool field) built in `f` and served through its own
+    `Service::call`: the struct's bool field satisfies flag_ok where it is built, and the struct's method hands exactly
+    that field of self to handle_http_request."""
+    for g in f.region():
+        gsy = Sym(g)
+        for i, k, st in g.body.stmts():
+            if st["k"] != "assign" or st["rv"]["k"] != "agg" or not st["rv"].get("adt") or st["rv"].get("agg") != "adt":
+                continue
+            adt = p.adts.get(strip_generics(st["rv"]["adt"]))
+            bools = [fl["name"] for v in (adt or {}).get("variants", []) for fl in v.get("fields", []) if fl.get("ty") == "bool"]
+            if not adt or adt.get("exported") or len(bools) != 1 or bools[0] not in (st["rv"].get("fields") or []):
+                continue
+            v = gsy.operand(st["rv"]["ops"][st["rv"]["fields"].index(bools[0])])
+            if not flag_ok(v):
+                continue
+            # the struct's own methods that reach the handler pass self.<bool field>
+            for h in p.fns:
+                if strip_generics(h.j.get("impl_self", "")) != strip_generics(st["rv"]["adt"]):
+                    continue
+                for c in nonforeign_calls(h):
+                    if c.is_("HttpListeningExporter::handle_http_request"):
+                        a0 = strip_sym(Sym(c.fn).operand(c.args[0]))
+                        while isinstance(a0, tuple) and a0 and a0[0] in ("capture",):
+                            a0 = strip_sym(a0[2]) if len(a0) > 2 and isinstance(a0[2], tuple) else a0
+                        if a0[0] == "field" and a0[2] == bools[0] and is_param(a0[1], 0):
+                            return True
+    return False
+
+
 def _flag_of(p, s):
     """The allowlist verdict inside the value handed to the handler: the bool itself, or the bool field of the private
     per-connection struct (through clone() of a captured copy)."""
@@ -235,11 +265,15 @@ def run(ctx):
         if ok:
             a0 = _flag_of(p, Sym(hr[0].fn).operand(hr[0].args[0]))
             ok = a0 is not None and "capture" in repr(a0) and sym_is_call(strip_sym(a0), "HttpListeningExporter::check_tcp_allowed")
+        elif len(cta) == 1 and not hr:
+            ok = _service_struct_flag(p, pts, lambda v: sym_is_call(strip_sym(v), "HttpListeningExporter::check_tcp_allowed"))
         chk.ob("C18.a", f"{pts.path} [flag provenance]", ok, "is_allowed = self.check_tcp_allowed(&stream), evaluated once per connection" if ok else "the flag handed to handle_http_request is not check_tcp_allowed(&stream) of this connection", pts.loc())
     pus = (p.method(HL, "process_uds_stream") or [None])[0]
     if pus:
         hr = [c for c in nonforeign_calls(pus) if c.is_("HttpListeningExporter::handle_http_request")]
         ok = len(hr) == 1 and (_flag_of(p, Sym(hr[0].fn).operand(hr[0].args[0])) or ())[:3] == ("const", "bool", True)
+        if not hr:
+            ok = _service_struct_flag(p, pus, lambda v: strip_sym(v)[:3] == ("const", "bool", True))
         chk.ob("C18.a", f"{pus.path} [UDS is always allowed]", ok, "UDS connections pass the documented constant true" if ok else "UDS connections do not pass `true`", pus.loc(), nontrivial=False)
     cta = one_method(chk, "C18.a", p, HL, "check_tcp_allowed")
     AF, NONE_LAB = _allowlist_field(p)
